@@ -5,7 +5,7 @@ From Coq Require Import ZArith List String Ascii Bool Permutation.
 From Gen Require Import Elements TokenTables SmartsTables.
 From Model Require Import PyBase Graph PeriodicTable Tokenize Smarts Query SmartsFull.
 From Model Require Parser.
-From Proofs Require Import QueryProofs TokenizeProofs SmartsProofs SmartsRoundtrip SmartsParser SmartsFullProofs SmartsDenote SmartsDenoteText.
+From Proofs Require Import QueryProofs TokenizeProofs SmartsProofs SmartsRoundtrip SmartsParser SmartsFullProofs SmartsDenote SmartsDenoteText SmartsTree SmartsTreeText SmartsStereo.
 Import ListNotations.
 Open Scope Z_scope.
 
@@ -406,3 +406,82 @@ Theorem C08_stereo_flag_spelling_independent_refuted :
   double_bond_flag "F/C=C/F" = Some (Some false) /\ double_bond_flag "F/C=C\F" = Some (Some true).
 Proof. exact stereo_flag_spelling_independent_refuted. Qed.
 Print Assumptions C08_stereo_flag_spelling_independent_refuted.
+
+(* ---------------------------------------------------------------------------------------------------------------- *)
+(* denotation of BRANCHED patterns.  A pattern is a tree: an atom, parenthesised branches "(" bond tree ")" and at most one
+   continuation  bond tree.  Token level: for ANY such tree of smarts_tokenize tokens the rest of smarts() numbers the atoms
+   in the order written and bonds every atom to its parent IN THE TREE (bonds_forest) with the query bond of its token *)
+Theorem C08_tree_denotation : forall t qs,
+  ok_tree t ->
+  Forall2 (fun p q => build_atom p = Ok q) (atoms_tree t) qs ->
+  NoDup (explicit_maps (atoms_tree t)) ->
+  Forall payload_valid (bonds_forest (kids_of t) 0 1) ->
+  full_of_tokens (tok_tree t) (atoms_tree t) =
+  Ok (map (fun pq => atom_result (fst pq) (snd pq)) (combine (atoms_tree t) qs), map to_sbond (bonds_forest (kids_of t) 0 1)).
+Proof. exact tree_denotation. Qed.
+Print Assumptions C08_tree_denotation.
+
+(* Text level: for EVERY text of the grammar
+     tree := atom ( "(" bond tree ")" )* ( bond tree )?     bond := documented spelling (possibly none)
+     atom := "[" body "]"  |  N O P S F I C B Cl Br  |  c n o p s b      (body bracket-free, accepted by _query_parse)
+   of any size and nesting depth, smarts() builds exactly the atoms written, in order (an unbracketed atom is the plain
+   element query; aromatic letters lose their aromaticity, as the code does), and exactly the bonds of the tree *)
+Theorem C08_tree_text_denotation : forall t qs,
+  tok_ok_tree t ->
+  Forall2 (fun p q => build_atom p = Ok q) (atoms_tree (to_tree t)) qs ->
+  NoDup (explicit_maps (atoms_tree (to_tree t))) ->
+  Forall payload_valid (bonds_forest (kids_of (to_tree t)) 0 1) ->
+  smarts_full (string_of_list_ascii (text_tree t)) =
+  Ok (map (fun pq => atom_result (fst pq) (snd pq)) (combine (atoms_tree (to_tree t)) qs),
+      map to_sbond (bonds_forest (kids_of (to_tree t)) 0 1)).
+Proof. exact tree_text_denotation. Qed.
+Print Assumptions C08_tree_text_denotation.
+
+Theorem C08_tree_text_example :
+  tok_ok_tree ex_tree /\
+  string_of_list_ascii (text_tree ex_tree) = "[C;D3](=O)(-,:;@[N,O])c!-[#6;a]Cl"%string /\
+  smarts_full "[C;D3](=O)(-,:;@[N,O])c!-[#6;a]Cl" =
+  Ok ([(QElem 6 None (mkQX 0 false [3] [] [] [] [] false), None); (QElem 8 None (mkQX 0 false [] [] [] [] [] false), None);
+       (QList [7; 8] (mkQX 0 false [] [] [] [] [] false), None); (QElem 6 None (mkQX 0 false [] [] [] [] [] false), None);
+       (QElem 6 None (mkQX 0 false [] [4] [] [] [] false), None); (QElem 17 None (mkQX 0 false [] [] [] [] [] false), None)],
+      [mkSB 1 0 (mkQB [2] None) None; mkSB 2 0 (mkQB [1; 4] (Some true)) None; mkSB 3 0 (mkQB [1] None) None;
+       mkSB 4 3 (mkQB [2; 3; 4] None) None; mkSB 5 4 (mkQB [1] None) None]).
+Proof. exact tree_text_example. Qed.
+Print Assumptions C08_tree_text_example.
+
+(* ---------------------------------------------------------------------------------------------------------------- *)
+(* the cis/trans flag, exactly as the code computes it (finding smarts-stereo-branch-mark-inverted stated precisely): for ANY table
+   of direction marks and ANY bond, the flag is set exactly when the ends differ, both have marks left, the bond can be double and
+   m is not a marked neighbour of n; it is the equality of the LAST written marks of the two ends, and these two are consumed *)
+Theorem C08_stereo_flag_spec : forall sb n m b dn dm,
+  zget sb n = Some dn -> zget sb m = Some dm ->
+  (n <> m /\ dn <> [] /\ dm <> [] /\ can_double b = true /\ ~ In m (keys dn) ->
+     stereo_of sb n m b = Ok (Some (Bool.eqb (snd (last dn (0, false))) (snd (last dm (0, false)))),
+                              Parser.zset (Parser.zset sb n (removelast dn)) m (removelast dm))) /\
+  (~ (n <> m /\ dn <> [] /\ dm <> [] /\ can_double b = true /\ ~ In m (keys dn)) -> stereo_of sb n m b = Ok (None, sb)).
+Proof. exact stereo_flag_spec. Qed.
+Print Assumptions C08_stereo_flag_spec.
+
+Theorem C08_stereo_flag_unmarked : forall sb n m b, zget sb n = None \/ zget sb m = None -> stereo_of sb n m b = Ok (None, sb).
+Proof. exact stereo_flag_unmarked. Qed.
+Print Assumptions C08_stereo_flag_unmarked.
+
+(* the suggested repair (translate one mark of each end to the first bonded substituent: keep it if it is that substituent's,
+   invert it otherwise) is spelling independent: for any geometry of the two ends (the two substituents of an end on opposite
+   sides), any two spellings of it and any choice of marks, the flag is the same, namely "first substituents on the same side" *)
+Theorem C08_repaired_flag_spelling_independent : forall gn gm rn rn' rm rm' marksn marksn' marksm marksm' xn xn' xm xm',
+  gn rn' = negb (gn rn) -> gm rm' = negb (gm rm) ->
+  spelling_of gn rn rn' marksn -> spelling_of gn rn rn' marksn' -> spelling_of gm rm rm' marksm -> spelling_of gm rm rm' marksm' ->
+  In xn marksn -> In xn' marksn' -> In xm marksm -> In xm' marksm' ->
+  repaired_flag rn rm xn xm = repaired_flag rn rm xn' xm' /\ repaired_flag rn rm xn xm = Bool.eqb (gn rn) (gm rm).
+Proof. exact repaired_flag_spelling_independent. Qed.
+Print Assumptions C08_repaired_flag_spelling_independent.
+
+(* the flag of the code is not: one geometry, two spellings of one end, different last marks; the repaired flag agrees on both *)
+Theorem C08_last_mark_flag_spelling_dependent :
+  let g := fun x : Z => if x =? 1 then false else true in
+  spelling_of g 1 2 [(1, false)] /\ spelling_of g 1 2 [(1, false); (2, true)] /\
+  Bool.eqb (snd (last [(1, false)] (0, false))) true <> Bool.eqb (snd (last [(1, false); (2, true)] (0, false))) true /\
+  repaired_flag 1 5 (1, false) (5, true) = repaired_flag 1 5 (2, true) (5, true).
+Proof. exact last_mark_flag_spelling_dependent. Qed.
+Print Assumptions C08_last_mark_flag_spelling_dependent.
